@@ -65,6 +65,7 @@ fn main() {
 								Some("nest") => nestv::replay_nest(&mut rep, &rec),
 								Some("canon") => canonv::replay_canon(&mut rep, &rec),
 								Some("conv") => navv::replay_conv(&mut rep, &rec),
+								Some("fragiter") => navv::replay_fragiter(&mut rep, &rec),
 								Some("wide") => printv::replay_wide(&mut rep, &rec),
 								Some("print") => printv::replay_print(&mut rep, &rec),
 								Some("macro") => macros.push(rec.clone()),
